@@ -1,12 +1,16 @@
 #!/usr/bin/env python3
-"""Re-evaluates every seeded change (seeded/*/patch.diff, selfseeded/*/patch.diff) against the
+"""usage: regress_seeds.py [id ...]
+Re-evaluates every seeded change (seeded/*/patch.diff, selfseeded/*/patch.diff) against the
 current checks and prints a table; exit 1 if a change that is recorded as detected is now missed."""
 import glob, json, os, re, subprocess, sys
 V = os.path.dirname(os.path.dirname(os.path.abspath(__file__)))
 bad = 0
+only = set(sys.argv[1:])
 for f in sorted(glob.glob(V + "/seeded/*/meta.json") + glob.glob(V + "/selfseeded/*/meta.json")):
     m = json.load(open(f))
     d = os.path.dirname(f)
+    if only and m["id"] not in only:
+        continue
     prop = m["property"]
     expected = (m.get("checked", {}).get("result") or m.get("result") or "")
     r = subprocess.run([sys.executable, V + "/ctl/mutate.py", d + "/patch.diff", prop, "quick"], capture_output=True, text=True)
